@@ -216,6 +216,32 @@ fn parse_ctx(ctx: &[u8]) -> Option<(Vec<u8>, Vec<u8>)> {
     Some((cth, th))
 }
 
+/// does the encoded GroupContext list an extension of this type?
+pub fn ctx_has_extension(ctx: &[u8], ext_type: u16) -> bool {
+    let mut r = Rd::new(ctx);
+    let exts = (|| -> Option<Vec<u8>> {
+        r.u16().ok()?;
+        r.u16().ok()?;
+        r.vec().ok()?;
+        r.u64().ok()?;
+        r.vec().ok()?;
+        r.vec().ok()?;
+        Some(r.vec().ok()?.to_vec())
+    })();
+    let Some(exts) = exts else { return false };
+    let mut er = Rd::new(&exts);
+    while er.left() > 0 {
+        let Ok(t) = er.u16() else { return false };
+        if er.vec().is_err() {
+            return false;
+        }
+        if t == ext_type {
+            return true;
+        }
+    }
+    false
+}
+
 /// offsets inside a PublicMessage wrapped in MLSMessage: (end of FramedContent, end of signature, end of
 /// confirmation tag if any, sender is member)
 pub struct PubLayout {
